@@ -75,9 +75,15 @@ U5 == Unmark(T5raw, 1, <<>>, 0, {})
 U6 == Unmark(T6raw, 1, <<>>, 0, {})
 T5 == U5.toks
 T6 == U6.toks
-Templates == << T1, T2, T3, T4, T5, T6 >>
+\* T7: tokens that SPAN several lines (the generator knows one line per token): quoted and interpolated strings continued with
+\* backslash + line break or \z + line break, long strings and their neighbours
+T7 == << "local", "s", "=", "'a\\\nb'", ",", "\"c\\z\n   d\"",
+         "local", "i", "=", "`p\\\nq{", "s", "}r\\z\n  t{", "i", "}u`",
+         "local", "l", "=", "[[\nx\ny]]", "..", "[==[\n]]\n]==]", "f", "[[\nz]]", "f", "'\\\n'",
+         "return", "s", ",", "i", ",", "l" >>
+Templates == << T1, T2, T3, T4, T5, T6, T7 >>
 \* token-index spans <<lo, hi>> of the type regions of each template
-TypeSpans == << {}, {}, {}, {}, U5.spans, U6.spans >>
+TypeSpans == << {}, {}, {}, {}, U5.spans, U6.spans, {} >>
 
 \* ---- endings: every statement kind as the LAST statement of a file, with and without a closing `;` -- where a rule that
 \* writes at the end of the file (append_text_comment with location `end`) has to find the last token
